@@ -55,3 +55,8 @@ var (
 func Hit(k int, recvOK, argsOK bool) {
 	LastK, LastRecvOK, LastArgsOK = k, recvOK, argsOK
 }
+
+// Id is the helper the non-leaf method bodies call (the build disables inlining).
+//
+//go:noinline
+func Id(x int64) int64 { return x }
